@@ -90,7 +90,7 @@ def field_map(blob: bytes) -> t.List[t.Tuple[int, int, str]]:
     return sorted(s for s in spans if s[1] > s[0])
 
 
-def field_of(fm: t.List[t.Tuple[int, int, str]], off: int) -> str:
+def field_of(fm, off: int) -> str:
     for s, e, nm in fm:
         if s <= off < e:
             return nm
